@@ -29,6 +29,7 @@ import (
 	"github.com/xuperchain/xupercore/lib/logs"
 	"github.com/xuperchain/xupercore/lib/storage/kvdb"
 	"github.com/xuperchain/xupercore/lib/utils"
+	"github.com/xuperchain/xupercore/lib/verifhook"
 	"github.com/xuperchain/xupercore/protos"
 )
 
@@ -418,6 +419,7 @@ func (uv *UtxoVM) SelectUtxos(fromAddr string, totalNeed *big.Int, needLock, exc
 		it := kvdb.NewQuickIterator(uv.ldb, []byte(addrPrefix), middleKey)
 		defer it.Release()
 		for it.Next() {
+			verifhook.Yield("select.item")
 			key := append([]byte{}, it.Key()...)
 			uBinary := it.Value()
 			uItem := &UtxoItem{}
@@ -473,6 +475,7 @@ func (uv *UtxoVM) SelectUtxos(fromAddr string, totalNeed *big.Int, needLock, exc
 		}
 	}
 	if !foundEnough {
+		verifhook.Yield("select.giveBack")
 		for _, lk := range willLockKeys {
 			uv.UnlockKey(lk)
 		}
